@@ -81,6 +81,7 @@ def check(ctx):
     ctx.rule("R8", "a trailing-comma slot that distinguishes a one-element tuple from a scalar is read by the action", floor=4)
     ctx.rule("R10", "record-valued nonterminals (comprehension clauses, call arguments, yield arguments ...): every field a child can carry is read, or the child handed on whole, on every path on which it can be present", floor=20)
     ctx.rule("R11", "tokenizer typestate: the backslash-continuation flag of a string never outlives that string on a path without a tokenizer error", floor=1)
+    ctx.rule("R12", "the value of a string or bytes literal is computed by the interpreter's own evaluators (ast.literal_eval / the host parser / the f-string adaptor) on every path - never by slicing the token text (escapes, line-ending translation, prefixes)", floor=3)
     ctx.rule("R9", "the generated LALR table on disk (if present) was generated from the grammar of the working tree", floor=1)
 
     asdl = Asdl()
@@ -225,13 +226,24 @@ def check(ctx):
         for c in inline:
             cls_name = c.func.attr
             want_sp = oracle[cls_name]
-            par = parent(c)
-            if isinstance(par, ast.IfExp) and isinstance(par.test, ast.Compare) and isinstance(const_value(par.test.comparators[0]), str):
-                lit = const_value(par.test.comparators[0])
-                eq_arm = par.body if isinstance(par.test.ops[0], ast.Eq) else par.orelse if isinstance(par.test.ops[0], ast.NotEq) else None
-                if eq_arm is None:
-                    ok = any(tok_spelling[t] == want_sp for t in toks)
-                elif c is eq_arm:
+            # the spelling test that selects this constructor: the nearest enclosing conditional expression or if/else
+            # statement (the two are one shape) whose test compares with a string literal
+            lit = in_eq = None
+            child = c
+            for a_ in ancestors(c):
+                t_ = a_.test if isinstance(a_, (ast.IfExp, ast.If)) else None
+                if t_ is not None and isinstance(t_, ast.Compare) and len(t_.ops) == 1 and isinstance(t_.ops[0], (ast.Eq, ast.NotEq)) and isinstance(const_value(t_.comparators[0]), str):
+                    in_body = (child is a_.body) if isinstance(a_, ast.IfExp) else any(child is b_ or lexically_inside(child, b_) for b_ in a_.body)
+                    in_else = (child is a_.orelse) if isinstance(a_, ast.IfExp) else any(child is b_ or lexically_inside(child, b_) for b_ in a_.orelse)
+                    if in_body or in_else:
+                        lit = const_value(t_.comparators[0])
+                        in_eq = in_body == isinstance(t_.ops[0], ast.Eq)
+                        break
+                if isinstance(a_, (ast.FunctionDef, ast.AsyncFunctionDef)):
+                    break
+                child = a_
+            if lit is not None:
+                if in_eq:
                     ok = lit == want_sp
                 else:
                     others = {tok_spelling[t] for t in toks} - {lit}
@@ -417,6 +429,7 @@ def check(ctx):
             ctx.ob("R9", tbl, "generated table present; signature comparison runs in the thorough tier", True)
     else:
         ctx.ob("R9", tbl, "no generated table on disk: the parser regenerates it from the working tree", True)
+    _literal_values(ctx)
 
 
 def _target_ctx_ok(ctx, g, asdl, fn, cfg, fdefs, ctor, target, prods, kind):
@@ -465,9 +478,9 @@ def _target_ctx_ok(ctx, g, asdl, fn, cfg, fdefs, ctor, target, prods, kind):
         return True, "built with ctx=Store()"
     # (3) the value comes from a child production whose action applies the setter: p[i]
     t = df.resolve_copy(fdefs, target)
-    if isinstance(t, ast.IfExp):
-        arms = [a_ for a_ in (t.body, t.orelse) if not (isinstance(a_, ast.Constant) and a_.value is None)]
-        t = arms[0] if len(arms) == 1 else t
+    arms = [a_ for a_ in value_arms(fdefs, t) if not (isinstance(a_, ast.Constant) and a_.value is None)]
+    if len(arms) == 1:
+        t = arms[0]
     idx = None
     if isinstance(t, ast.Subscript) and unparse(t.value) == "p" and isinstance(const_value(t.slice), int):
         idx = const_value(t.slice)
@@ -494,6 +507,57 @@ def _target_ctx_ok(ctx, g, asdl, fn, cfg, fdefs, ctor, target, prods, kind):
     return False, "no dominating context change found"
 
 
+
+def _literal_values(ctx):
+    bpm = ctx.repo.module("xonsh/parsers/base.py")
+    raw = bpm.func("BaseParser.p_string_literal", raw=True)
+    fn = flat(ctx, raw, 2, skip=("xonsh_call", "_set_error", "currloc", "pyparse", "FStringAdaptor", "increment_lineno", "literal_eval"))
+    st = "xonsh/parsers/base.py:BaseParser.p_string_literal"
+    defs = df.all_defs(fn)
+    DELEG = ("literal_eval", "pyparse", "FStringAdaptor", "eval_fstr_fields")
+    # the names whose value becomes the literal's value: `s=` keywords of node constructors, plain names stored into p[0]
+    vals = set()
+    for n in walk_local(fn):
+        if isinstance(n, ast.Call):
+            for k in n.keywords:
+                if k.arg in ("s", "value") and isinstance(k.value, ast.Name):
+                    vals.add(k.value.id)
+                elif k.arg in ("s", "value") and not isinstance(k.value, ast.Name):
+                    ok = any(isinstance(c, ast.Call) and (call_name(c) or "").split(".")[-1] in DELEG for c in ast.walk(k.value))
+                    ctx.ob("R12", st, f"`{short(k.value, 50)}` (literal value written in place) is delegated", ok, key=f"string-literal|value-not-delegated|{short(k.value, 30)}", where=loc(k.value))
+        if isinstance(n, ast.Assign) and any(isinstance(t, ast.Subscript) and unparse(t) == "p[0]" for t in n.targets) and isinstance(n.value, ast.Name):
+            vals.add(n.value.id)
+    if not vals:
+        raise AnchorMissing(f"{st}: no literal value names found")
+    # values handed through a position fixer (`increment_lineno(x, ..)`) or copied from another local: judge that local too
+    for _ in range(4):
+        for v in sorted(vals):
+            for d in defs.get(v, []):
+                e = d.value
+                if isinstance(e, ast.Call) and (call_name(e) or "").split(".")[-1] in ("increment_lineno", "copy_location", "fix_missing_locations") and e.args and isinstance(e.args[0], ast.Name):
+                    vals.add(e.args[0].id)
+                elif isinstance(e, ast.Name) and defs.get(e.id):
+                    vals.add(e.id)
+    n_defs = 0
+    for v in sorted(vals):
+        for d in defs.get(v, []):
+            if d.kind == "param" or d.value is None:
+                continue
+            if getattr(d.stmt, "_xv_bind", False):
+                continue
+            n_defs += 1
+            e = d.value
+            deleg = any(isinstance(c, ast.Call) and (call_name(c) or "").split(".")[-1] in DELEG for c in ast.walk(e))
+            passthrough = (isinstance(e, ast.Constant) and e.value is None) or (isinstance(e, ast.Call) and any(isinstance(a, ast.Name) and a.id in vals for a in e.args) and (call_name(e) or "").split(".")[-1] in ("increment_lineno", "copy_location", "fix_missing_locations")) or (isinstance(e, ast.Name) and e.id in vals)
+            if isinstance(e, ast.Name) and e.id not in vals and defs.get(e.id):
+                # a copy of another local (return value of an expanded helper): judge that local as well
+                vals_more = e.id
+                deleg = all(any(isinstance(c, ast.Call) and (call_name(c) or "").split(".")[-1] in DELEG for c in ast.walk(d2.value)) for d2 in defs.get(vals_more, []) if d2.value is not None and d2.kind != "param")
+            ctx.ob("R12", st, f"`{v} = {short(e, 50)}`: the literal's value comes out of the interpreter's evaluator", deleg or passthrough, key=f"string-literal|value-not-delegated|{short(e, 30)}", where=loc(d.stmt), detail=None if (deleg or passthrough) else "hand-computed from the token text: escapes, \\r\\n translation and prefix rules are the evaluator's business")
+    if n_defs < 3:
+        raise AnalysisError(f"{st}: only {n_defs} value definitions seen")
+
+
 META = {
     "technique": "static analysis over the effective PLY grammar (dumped from the working tree; LALR table generated to find live productions) and MRO-resolved action ASTs, with the running interpreter's ast/token/keyword modules and ast._Unparser tables as oracles",
     "text": "Not tree equality for all programs (undecidable here) but eleven necessary conditions, each checked for "
@@ -511,4 +575,5 @@ META = {
     "`**kw: T` after `*args` is not annotatable (vfpdef in a typedargslist production), `for i, in xs`.",
     "note": "Decides the listed structural clauses, not the behaviour. The grammar is read by importing "
     "xonsh.parsers from the analysed tree in a helper subprocess (static initialisers and grammar templating only).",
+    "more": "Also decided: every definition of a string/bytes literal's value in p_string_literal (helpers expanded) is delegated to ast.literal_eval, the host parser or the f-string adaptor - never computed from the token text.",
 }
